@@ -189,7 +189,10 @@ func runC14(c *core.Ctx) error {
 				segs = append(segs, paths[c.Rand.Intn(len(paths))]...)
 				switch c.Rand.Intn(4) {
 				case 0:
-					segs = append(segs, []string{"a", "0", "zz", "-1", "+0", "00", "", "1e0", "9999999999999999999"}[c.Rand.Intn(9)])
+					segs = append(segs, []string{"a", "0", "zz", "-1", "+0", "00", "", "1e0", "9999999999999999999",
+						// digit strings around 2^63 and 2^64 and their multiples plus a small index (no wrap-around may resolve them)
+						"9223372036854775807", "9223372036854775808", "18446744073709551615", "18446744073709551616", "18446744073709551617",
+						"36893488147419103232", "36893488147419103233", "55340232221128654849", "99999999999999999999", "184467440737095516160"}[c.Rand.Intn(19)])
 				case 1:
 					if len(segs) > 0 {
 						segs[c.Rand.Intn(len(segs))] = []string{"x", "3", "+1", "01"}[c.Rand.Intn(4)]
@@ -264,12 +267,22 @@ func runC14(c *core.Ctx) error {
 				ders = append(ders, der{"Join", base.Join(mkPath([]string{x, "t"})), want(append(append([]string{}, segs...), x, "t"))})
 			case 4:
 				if len(segs) > 0 {
-					ders = append(ders, der{"Parent+Append", base.Parent().AppendSegmentString(x), want(append(append([]string{}, segs[:len(segs)-1]...), x))})
+					if c.Rand.Bool() {
+						ders = append(ders, der{"Parent+Join", base.Parent().Join(mkPath([]string{x})), want(append(append([]string{}, segs[:len(segs)-1]...), x))})
+					} else if c.Rand.Bool() {
+						ders = append(ders, der{"Pop+Join", base.Pop().Join(mkPath([]string{x, "u"})), want(append(append([]string{}, segs[:len(segs)-1]...), x, "u"))})
+					} else {
+						ders = append(ders, der{"Parent+Append", base.Parent().AppendSegmentString(x), want(append(append([]string{}, segs[:len(segs)-1]...), x))})
+					}
 				}
 			case 5:
 				if len(segs) > 0 {
 					t := c.Rand.Intn(len(segs))
-					ders = append(ders, der{"Truncate+Append", base.Truncate(t).AppendSegmentString(x), want(append(append([]string{}, segs[:t]...), x))})
+					if c.Rand.Bool() {
+						ders = append(ders, der{"Truncate+Join", base.Truncate(t).Join(mkPath([]string{x})), want(append(append([]string{}, segs[:t]...), x))})
+					} else {
+						ders = append(ders, der{"Truncate+Append", base.Truncate(t).AppendSegmentString(x), want(append(append([]string{}, segs[:t]...), x))})
+					}
 				}
 			}
 		}
